@@ -388,6 +388,17 @@ def _np_where(cond, *xy):
 
 def _asarr(x, *a, **k):
     d = k.get('dtype', a[0] if a else None)
+    if isinstance(x, (list, tuple)) and not (d is object or (isinstance(d, str) and d in ('object', 'O'))):
+        # a list of arrays of different shapes is not an array of numbers: numpy (since 1.24) refuses it unless an object array is asked for
+        shapes = {np.shape(v) for v in x if is_arr(v) or isinstance(v, (list, tuple))}
+        if len(shapes) > 1:
+            raise ModelError('ValueError', 'setting an array element with a sequence: the requested array has an inhomogeneous shape')
+    if isinstance(x, (list, tuple)) and len({np.shape(v) for v in x if is_arr(v) or isinstance(v, (list, tuple))}) > 1:
+        # an object array of differently shaped pieces: one entry per piece
+        out = np.empty(len(x), dtype=object)
+        for i_, v in enumerate(x):
+            out[i_] = np.asarray(v, dtype=object) if (is_arr(v) or isinstance(v, (list, tuple))) else S(v)
+        return out
     out = arr(_deep(x)) if isinstance(x, (list, tuple)) else x
     if d is not None and (d is int or getattr(d, '_is_int', False) or (isinstance(d, str) and d.startswith('int')) or (isinstance(d, OpaqueFn) and d.name in ('numpy.int64', 'numpy.int32', 'numpy.int_'))):
         # conversion to an integer dtype truncates towards zero (numpy semantics); symbolic entries are left as they are
@@ -1953,6 +1964,9 @@ class SymEval:
         self.depth += 1
         if self.depth > self.max_depth:
             self.depth -= 1
+            if self.try_depth > 0:
+                # unbounded mutual recursion inside a try block: Python raises RecursionError at its own limit and the innermost handler sees it
+                raise _PyRaise('RecursionError')
             raise Opaque('inlining depth exceeded at %s' % fn.name)
         try:
             paths = self.run_fn(fn, args, dict(kw), conds=p.conds, outer_env=outer_env)
